@@ -227,6 +227,14 @@ class World:
                     self.flags.add("v3:auth-response-len127")
             except ber.BerError:
                 pass
+        if self.engine is not None and self.engine.response_form != 0:
+            # run-signature of known finding F21 (same root cause as F08): an authenticated response that is
+            # not in the library's own canonical (minimal-length) encoding
+            try:
+                if len(resp) > 8 and ber.dec_v3_msg(resp).flags % 4 >= 1:
+                    self.flags.add("v3:auth-response-nonminimal")
+            except ber.BerError:
+                pass
         self.exchanges.append((bytes(data), bytes(resp)))
         return resp
 
@@ -263,6 +271,8 @@ class World:
         """Known-finding id whose run-signature this exception + run matches, if any."""
         if type(exc).__name__ == "AuthenticationError" and "v3:auth-response-len127" in self.flags:
             return "F08"
+        if type(exc).__name__ == "AuthenticationError" and "v3:auth-response-nonminimal" in self.flags:
+            return "F21"
         return None
 
     # number of non-discovery requests the agent processed
